@@ -67,11 +67,17 @@ def gen_option(rng, slot):
 
 
 NAME_FORMS = [(None, "seq1"), ("s", "q"), ("Sch", "My_Seq"), (None, '"Q"'), ('"S"', '"Q2"'), (None, "`bq`"), ("[dbo]", "[sq]"), (None, "SEQ_UP")]
+# verbatim names (no index suffix): double-quoted names containing a dot, and - behind a schema - names spelled like the option keywords
+EXACT_NAME_FORMS = [(None, '"billing.invoice_no"'), ("dev", '"v1.2_ids"'), ('"tenant.a"', '"seq.main"'), ("dev", "cache"), ("billing", "order"), ("public", "Start"),
+                    ("s", "increment"), ("s", "minvalue"), ("s", "no"), ("s", "by"), ("s", "with"), ("s", "noorder"), ("s", "maxvalue"), ("dev", "CACHE"), ("s", "Order")]
 
 
 def gen_sequence(rng, order, idx):
-    schema, name = rng.choice(NAME_FORMS)
-    name = name if name.endswith(('"', "`", "]")) else name + str(idx)
+    if rng.random() < 0.15:
+        schema, name = rng.choice(EXACT_NAME_FORMS)
+    else:
+        schema, name = rng.choice(NAME_FORMS)
+        name = name if name.endswith(('"', "`", "]")) else name + str(idx)
     opts = [gen_option(rng, s) for s in order]
     head = K("CREATE SEQUENCE") + dotted(schema, name)
     exp = {"schema": schema, "sequence_name": name}
